@@ -75,6 +75,8 @@ func (r *router) startFastHttpServer(cfg *ServerConfig) (*fastHttpServer, error)
 		return nil, err
 	}
 
+	l = newListener(l, r.subLoggerForServer("server_fasthttp", cfg.Tag), r.limiter, costTCPConn)
+
 	h := &fasthttpHandler{
 		r:                r,
 		clientAddrHeader: cfg.Http.ClientAddrHeader,
@@ -157,6 +159,12 @@ func (h *fasthttpHandler) HandleFastHTTP(ctx *fasthttp.RequestCtx) {
 	} else {
 		addr := ctx.RemoteAddr()
 		remoteAddr = netAddr2NetipAddr(addr) // Maybe invalid. e.g. server is on unix socket.
+	}
+
+	if err := h.r.limiterAllowN(remoteAddr.Addr(), costHTTPQuery); err != nil {
+		// TODO: Log or create a metrics entry for refused queries.
+		ctx.SetStatusCode(fasthttp.StatusServiceUnavailable)
+		return
 	}
 
 	// Maybe invalid. e.g. server is on unix socket.
